@@ -190,6 +190,9 @@ class AdminLedgerDevice(LedgerDevice):
                 raise _SW(ERR_UI_PROT_INVALID)
             ud = bytes(apdu[3:])
             btc = self.byz.get("ui_btc_key") or self.wallet_key(path_binary(ORDERED_PATHS[0])).pub33
+            if callable(btc):
+                # a key derived from the genuine one (same X other parity, one byte apart): another key
+                btc = btc(self.wallet_key(path_binary(ORDERED_PATHS[0])).pub33)
             msg = self.byz.get("ui_header", b"HSM:UI:5.4") + ud + btc + self.signer_hash + \
                 self.signer_iteration.to_bytes(2, "big") + self.byz.get("ui_tail", b"")
             self.att_state = {"msg": msg}
